@@ -619,8 +619,8 @@ func (tr *Tr) markHeapKinds(l Loc, t types.Type) {
 		}
 		tr.heapKind[l.Prefix+"#arr"] = "ref"
 		tr.heapKind[l.Prefix+"#off"] = "nonneg"
-		tr.heapKind[l.Prefix+"#len"] = "nonneg"
-		tr.heapKind[l.Prefix+"#cap"] = "nonneg"
+		tr.heapKind[l.Prefix+"#len"] = "int:0:2147483648" // A-arith: slice windows <= 2^31 elements
+		tr.heapKind[l.Prefix+"#cap"] = "int:0:2147483648"
 	case kIface:
 		tr.heapKind[l.Prefix+"#tag"] = "nonneg"
 	}
